@@ -37,6 +37,9 @@ func sc(name string, kv ...any) semCase {
 
 func gRange(lo, hi string) *gexpr { return &gexpr{Op: "range", S: lo + hi} }
 
+// gD: a character of a double-quoted literal (either case of a letter).
+func gD(s string) *gexpr { return &gexpr{Op: "dchar", S: s} }
+
 func wholeSemanticCases() []semCase {
 	eof := func() *gexpr { return gNot(gDot()) }
 	return []semCase{
@@ -58,6 +61,8 @@ func wholeSemanticCases() []semCase {
 			"S", gSeq(gPlus(gSeq(gPush(gRange("0", "9")), gActS("__act0()"))), gQ(gSeq(gC("."), gPush(gPlus(gRange("0", "9"))), gActS("__act1()"))), eof())),
 		sc("a predicate and a state change between terminals, an empty alternative",
 			"S", gSeq(gC("a"), gPredS("__pred0()"), &gexpr{Op: "state", S: "__st0()"}, gAlt(gC("b"), gNil()), gC("c"))),
+		sc("case-insensitive letters at the start of alternatives next to plain literals",
+			"S", gSeq(gAlt(gSeq(gD("k"), gC("g")), gSeq(gC("m"), gD("x")), gSeq(gRange("0", "9"), gC("y")), gSeq(gC("z"), gD("w"))), eof())),
 		sc("recursion through a parenthesised expression",
 			"E", gSeq(gN("T"), gStar(gSeq(gC("+"), gN("T")))),
 			"T", gAlt(gSeq(gC("("), gN("E"), gC(")")), gPlus(gRange("0", "9")))),
@@ -91,6 +96,12 @@ func gexprToModel(m *model, e *gexpr) *Obj {
 	case "push":
 		return m.push(kids()[0])
 	case "char":
+		return m.char(e.S)
+	case "dchar":
+		// what the documentation says a double-quoted letter is: either case
+		if lo, up := strings.ToLower(e.S), strings.ToUpper(e.S); lo != up {
+			return m.alt(m.char(lo), m.char(up))
+		}
 		return m.char(e.S)
 	case "range":
 		r := []rune(e.S)
@@ -194,8 +205,32 @@ func wholeSemantics(c *Check, r *Repo, rule string, opts modelOpts) {
 						out[i].und = append(out[i].und, fmt.Sprintf("%s, rule %s: %s", cs.name, rl.n, clip(tv.detail(), 300)))
 						continue
 					}
-					if !tv.ok() {
-						out[i].bad = append(out[i].bad, fmt.Sprintf("%s, rule %s: %s", cs.name, rl.n, clip(tv.detail(), 400)))
+					// the outcome sets are compared per class of inputs (which characters were read where):
+					// two alternatives that end at the same position are different outcomes
+					var msgs []string
+					if len(tv.TypeErrs) > 0 {
+						msgs = append(msgs, "generated code does not compile: "+clip(strings.Join(tv.TypeErrs[:min(2, len(tv.TypeErrs))], " | "), 300))
+					} else {
+						missing, extra := tv.project(projEquivRaw)
+						for k, x := range extra {
+							if k >= 2 {
+								msgs = append(msgs, fmt.Sprintf("(+%d more)", len(extra)-2))
+								break
+							}
+							msgs = append(msgs, "the generated parser can "+x+" — the grammar as written cannot")
+						}
+						for k, x := range missing {
+							if k >= 2 {
+								msgs = append(msgs, fmt.Sprintf("(+%d more)", len(missing)-2))
+								break
+							}
+							msgs = append(msgs, "the grammar as written can "+x+" — the generated parser cannot")
+						}
+						msgs = append(msgs, tv.Flags...)
+						msgs = append(msgs, tv.Contracts...)
+					}
+					if len(msgs) > 0 {
+						out[i].bad = append(out[i].bad, fmt.Sprintf("%s, rule %s: %s", cs.name, rl.n, clip(strings.Join(msgs, "; "), 500)))
 					}
 				}
 			}()
@@ -218,7 +253,7 @@ func wholeSemantics(c *Check, r *Repo, rule string, opts modelOpts) {
 	default:
 		c.OK(rule, construct, "", fmt.Sprintf("%d rule functions of %d grammars (keywords, nested choices and sequences, classes, rule calls, lookaheads, captures and actions, predicates, recursion) built through the builder API and taken through all of Compile: outcome sets (verdict, position, tokens, events) equal the oracle's for the grammar as written", n, len(cases)))
 	}
-	c.Floor(rule, n, 12)
+	c.Floor(rule, n, 13)
 }
 
 // randomSemCases: seeded random well-formed grammars over concrete leaves —
